@@ -25,7 +25,9 @@ EXPLANATION = (
     "(judged on the converted operand type); (5) every recursion cycle has a depth, budget or progress "
     "guard; (6) decoders and the zlib/zstd wrappers release their temporaries and library streams "
     "(inflateEnd / deflateEnd) on every exit; (7) a refill step of the streaming RLE decoder that gives "
-    "up records an error or has nothing owed by the current run (its driving loops terminate). Decides "
+    "up records an error or has nothing owed by the current run (its driving loops terminate); (8) no "
+    "bounds guard adds or multiplies an unbounded 32-bit value taken from the input before widening it "
+    "to the 64-bit size it is compared with (the sum wraps and the guard admits what it exists to refuse). Decides "
     "these clauses, not termination bounds in general, oversized shifts, nor safety inside zlib/zstd.")
 
 DECODER_FILES = ["src/compression/snappy.c", "src/compression/lz4.c", "src/encoding/rle.c",
@@ -64,6 +66,9 @@ def run(ctx):
     ctx.clause("C08.5 recursion bounded")
     ctx.clause("C08.6 decoder temporaries released on every exit")
     ctx.clause("C08.7 a refill step of the streaming RLE decoder that gives up records an error or has nothing owed (its driving loops terminate)")
+    ctx.clause("C08.8 no bounds guard is computed in 32 bits from an unbounded input value and then compared with a 64-bit size")
+    from ..rules import widen
+    nwid = widen.check(ctx, DECODER_FILES + CODEC_WRAPPERS + ["src/encoding/byte_stream_split.c", "src/thrift/parquet_types.c"])
     from ..rules import progress
     nfalse, nref = progress.check(ctx, "src/encoding/rle.c", "carquet_rle_decoder")
     ctx.floor("C08 refill functions of the RLE decoder", nref, 2)
